@@ -5,6 +5,7 @@ import ConserveModel.Driver.Blake
 import ConserveModel.Driver.Glob
 import ConserveModel.Driver.Diff
 import ConserveModel.Driver.Mtime
+import ConserveModel.Driver.Tree
 import ConserveModel.Driver.Ops
 /-
 cvmodel: line-protocol driver for the executable model.
@@ -46,7 +47,7 @@ def handleStateless (toks : List String) : List String :=
   match handleBlake toks with
   | some r => r
   | none =>
-    match [handleGlob, handleDiff, handleMtime].findSome? (fun h => h toks) with
+    match [handleGlob, handleDiff, handleMtime, handleTree].findSome? (fun h => h toks) with
     | some r => r
     | none => handle toks
 
